@@ -39,7 +39,7 @@ BEFORE_WRITE = {"read_notebook", "diff_notebooks", "decide", "apply", "serialise
 
 
 def budget(tier):
-    return 16 if tier == "quick" else 400
+    return 24 if tier == "quick" else 400
 
 
 @st.composite
@@ -206,6 +206,86 @@ def run_child(case, files, plan):
             "after": files.output_bytes(entry)}
 
 
+def git_end_to_end(out, case, lib, lib_conflict, detail):
+    """The same merge through real `git merge` with the driver configured (git trusts the exit status blindly)."""
+    import nbformat
+    top = tempfile.mkdtemp(prefix="vp_c08_git_")
+    try:
+        repo = os.path.join(top, "repo")
+        os.makedirs(repo)
+        env = dict(os.environ, HOME=top, GIT_CONFIG_GLOBAL=os.path.join(top, "gitconfig"), GIT_CONFIG_NOSYSTEM="1", GIT_AUTHOR_NAME="t",
+                   GIT_AUTHOR_EMAIL="t@e", GIT_COMMITTER_NAME="t", GIT_COMMITTER_EMAIL="t@e", LC_ALL="C", JUPYTER_CONFIG_DIR=top,
+                   JUPYTER_CONFIG_PATH=top)
+        env["PYTHONPATH"] = os.pathsep.join([REPO, ROOT, os.path.join(ROOT, "stubs"), os.path.join(ROOT, ".deps")])
+        env.pop("VP_OUTPUT_PATH", None)
+        open(env["GIT_CONFIG_GLOBAL"], "w").close()
+
+        def git(*a, check=True):
+            p = subprocess.run(["git"] + list(a), cwd=repo, env=env, stdout=subprocess.PIPE, stderr=subprocess.PIPE)
+            if check and p.returncode != 0:
+                raise RuntimeError("git %s: %s" % (" ".join(a), p.stderr.decode()[:300]))
+            return p
+        plan, fired = os.path.join(top, "plan.json"), os.path.join(top, "fired")
+        with open(plan, "w") as f:
+            f.write("{}")
+        git("init", "-q", "-b", "main")
+        driver = "%s %s %s %s driver merge %s %%O %%A %%B %%L %%P" % (sys.executable, os.path.join(ROOT, "vp", "faults", "child.py"), plan, fired,
+                                                                      " ".join(strategy_argv(case["args"])))
+        git("config", "merge.jupyternotebook.driver", driver)
+        git("config", "merge.jupyternotebook.name", "nbdime under test")
+        with open(os.path.join(repo, ".gitattributes"), "w") as f:
+            f.write("*.ipynb merge=jupyternotebook\n")
+        with open(os.path.join(repo, "readme.txt"), "w") as f:
+            f.write("x\n")
+        nbfile = os.path.join(repo, "nb.ipynb")
+        if case["placeholder"] == "none":
+            nbformat.write(to_nb(case["base"]), nbfile)
+        git("add", "-A")
+        git("commit", "-q", "-m", "base")
+        git("checkout", "-q", "-b", "remote")
+        nbformat.write(to_nb(case["remote"]), nbfile)
+        git("add", "-A")
+        git("commit", "-q", "--allow-empty", "-m", "remote")
+        git("checkout", "-q", "main")
+        nbformat.write(to_nb(case["local"]), nbfile)
+        git("add", "-A")
+        git("commit", "-q", "--allow-empty", "-m", "local")
+        with open(nbfile, "rb") as f:
+            local_bytes = f.read()
+        same = canon(case["local"]) == canon(case["remote"]) or canon(case["base"]) in (canon(case["local"]), canon(case["remote"])) and case["placeholder"] == "none"
+        m = git("merge", "--no-edit", "-q", "remote", check=False)
+        out.count("git_merges")
+        if same:
+            out.count("git_merges_trivial_(driver_not_called)")
+            return
+        unmerged = bool(git("ls-files", "-u").stdout.strip())
+        gd = dict(detail, via="git merge", git_status=m.returncode, stderr=m.stderr.decode("utf8", "replace")[-200:])
+        if (m.returncode == 0) != (not lib_conflict):
+            out.fail("git_merge_status_iff_no_conflict", "git_status_%s_but_conflict_%s" % ("zero" if m.returncode == 0 else "nonzero", lib_conflict), detail=gd)
+        if unmerged != bool(lib_conflict):
+            out.fail("git_index_conflict_state", "unmerged_entries_%s_but_conflict_%s" % (unmerged, lib_conflict), detail=gd)
+        try:
+            with open(nbfile, encoding="utf8") as f:
+                got = plain(nbformat.reads(f.read(), as_version=4))
+            if canon(normalise(got, lib)) != canon(normalise(lib, lib)):
+                out.fail("git_worktree_equals_library_merge", "worktree_file_differs", detail=gd)
+        except Exception as e:
+            out.fail("git_worktree_equals_library_merge", "worktree_file_unreadable", type(e).__name__, detail=gd)
+        # one faulted merge through git: it must not be recorded as a successful merge
+        git("merge", "--abort", check=False)
+        git("reset", "-q", "--hard", "main")
+        with open(plan, "w") as f:
+            json.dump({"point": "apply", "call": 1, "kind": "oserror"}, f)
+        head = git("rev-parse", "HEAD").stdout
+        m = git("merge", "--no-edit", "-q", "remote", check=False)
+        out.count("git_merges_with_fault")
+        if os.path.exists(fired):
+            if m.returncode == 0 or git("rev-parse", "HEAD").stdout != head:
+                out.fail("git_fault_never_reports_success", "git_merge_succeeded_after_driver_fault", detail=dict(gd, git_status=m.returncode))
+    finally:
+        shutil.rmtree(top, ignore_errors=True)
+
+
 def run_case(case):
     out = Outcome()
     entry = case["entry"]
@@ -263,6 +343,8 @@ def run_case(case):
                         out.fail("fault_never_reports_success", "exit_status_zero_after_fault", "%s at %s" % (kind, point), detail=fd)
                     if point in BEFORE_WRITE and entry != "nbmerge_stdout" and r["before"] != r["after"]:
                         out.fail("failure_before_write_leaves_output_untouched", "output_changed", "%s at %s" % (kind, point), detail=fd)
+        if case["placeholder"] in ("none", "base_null", "base_empty") and lib != "deleted" and case.get("faults", True):
+            git_end_to_end(out, case, lib, lib_conflict, detail)
         out.count("faults_reached_total", 0)
         out.nontrivial = (lib_conflict or case["placeholder"] != "none") and (reached >= 20 or not case.get("faults", True))
     finally:
